@@ -12,15 +12,15 @@ EXTENDS TransportRules, Json
 
 CONSTANTS MaxLen, Detect, Tr      \* Tr: "sgio" (device node, replug detection) or "iscsi" (no node to go stale)
 
-VARIABLES node, fresh, disk, mine, fault, hist, exported
-vars == <<node, fresh, disk, mine, fault, hist, exported>>
+VARIABLES node, fresh, disk, mine, fault, oarmed, hist, exported
+vars == <<node, fresh, disk, mine, fault, oarmed, hist, exported>>
 
 LBAs == {0, 1}
 Vals == {1, 2, 3}
 
 Init == /\ node = "present" /\ fresh = TRUE
         /\ disk = [l \in LBAs |-> 0] /\ mine = [l \in LBAs |-> 0]
-        /\ fault = 0 /\ hist = <<>> /\ exported = FALSE
+        /\ fault = 0 /\ oarmed = FALSE /\ hist = <<>> /\ exported = FALSE
 
 Room == Len(hist) < MaxLen /\ ~exported
 
@@ -29,19 +29,33 @@ Room == Len(hist) < MaxLen /\ ~exported
 FaultStatuses == {2, 8, 24, 40, 48, 64}
 Outcome(st) == IF st = 2 THEN "CheckCondition" ELSE IF Tr = "sgio" THEN "UnspecifiedError" ELSE Named(st)
 \* how one command fares on its way to the target: <<outcome, reaches the target, handle fresh afterwards>>
+\* oarmed: the next open() of the node fails (Handle.tla: a failed re-open is an error that sends nothing and
+\* leaves no handle; the next command tries again)
+OpenFails == Detect /\ node = "present" /\ ~fresh /\ oarmed
 Path == IF Detect /\ node = "absent" THEN <<"FileNotFoundError", FALSE, fresh>>
+        ELSE IF OpenFails THEN <<"PermissionError", FALSE, FALSE>>
         ELSE IF fault # 0 THEN <<Outcome(fault), FALSE, IF Detect THEN TRUE ELSE fresh>>
         ELSE <<"ok", TRUE, IF Detect THEN TRUE ELSE fresh>>
 \* a fault is consumed by the command that reaches the binding
-FaultAfter == IF Detect /\ node = "absent" THEN fault ELSE 0
+FaultAfter == IF (Detect /\ node = "absent") \/ OpenFails THEN fault ELSE 0
+OarmedAfter == IF OpenFails THEN FALSE ELSE oarmed
 
 Write(l, v) ==
     /\ Room
     /\ LET p == Path IN
        /\ disk' = IF p[2] THEN [disk EXCEPT ![l] = v] ELSE disk
        /\ mine' = IF p[1] = "ok" THEN [mine EXCEPT ![l] = v] ELSE mine
-       /\ fresh' = p[3] /\ fault' = FaultAfter
+       /\ fresh' = p[3] /\ fault' = FaultAfter /\ oarmed' = OarmedAfter
        /\ hist' = Append(hist, [act |-> "write", lba |-> l, val |-> v, out |-> p[1], data |-> 0])
+    /\ UNCHANGED <<node, exported>>
+\* WRITE SAME(10) with NUMBER OF LOGICAL BLOCKS 0: every block from l to the end of the medium (SBC-3 5.43)
+Fill(l, v) ==
+    /\ Room
+    /\ LET p == Path IN
+       /\ disk' = IF p[2] THEN [k \in LBAs |-> IF k >= l THEN v ELSE disk[k]] ELSE disk
+       /\ mine' = IF p[1] = "ok" THEN [k \in LBAs |-> IF k >= l THEN v ELSE mine[k]] ELSE mine
+       /\ fresh' = p[3] /\ fault' = FaultAfter /\ oarmed' = OarmedAfter
+       /\ hist' = Append(hist, [act |-> "fill", lba |-> l, val |-> v, out |-> p[1], data |-> 0])
     /\ UNCHANGED <<node, exported>>
 \* WRITE SAME(16) with NDOB = 1: a write without a data-out phase (the block becomes zero)
 Zero(l) ==
@@ -49,13 +63,13 @@ Zero(l) ==
     /\ LET p == Path IN
        /\ disk' = IF p[2] THEN [disk EXCEPT ![l] = 0] ELSE disk
        /\ mine' = IF p[1] = "ok" THEN [mine EXCEPT ![l] = 0] ELSE mine
-       /\ fresh' = p[3] /\ fault' = FaultAfter
+       /\ fresh' = p[3] /\ fault' = FaultAfter /\ oarmed' = OarmedAfter
        /\ hist' = Append(hist, [act |-> "zero", lba |-> l, val |-> 0, out |-> p[1], data |-> 0])
     /\ UNCHANGED <<node, exported>>
 Read(l) ==
     /\ Room
     /\ LET p == Path IN
-       /\ fresh' = p[3] /\ fault' = FaultAfter
+       /\ fresh' = p[3] /\ fault' = FaultAfter /\ oarmed' = OarmedAfter
        /\ hist' = Append(hist, [act |-> "read", lba |-> l, val |-> 0, out |-> p[1], data |-> IF p[1] = "ok" THEN disk[l] ELSE 0])
     /\ UNCHANGED <<node, disk, mine, exported>>
 \* the caller keeps ONE read command object, re-encodes its CDB for another block (cmd.cdb = cmd.build_cdb(...))
@@ -63,14 +77,14 @@ Read(l) ==
 Reread(l) ==
     /\ Room
     /\ LET p == Path IN
-       /\ fresh' = p[3] /\ fault' = FaultAfter
+       /\ fresh' = p[3] /\ fault' = FaultAfter /\ oarmed' = OarmedAfter
        /\ hist' = Append(hist, [act |-> "reread", lba |-> l, val |-> 0, out |-> p[1], data |-> IF p[1] = "ok" THEN disk[l] ELSE 0])
     /\ UNCHANGED <<node, disk, mine, exported>>
 \* re-attaching sends one INQUIRY down the same path
 Reattach ==
     /\ Room
     /\ LET p == Path IN
-       /\ fresh' = p[3] /\ fault' = FaultAfter
+       /\ fresh' = p[3] /\ fault' = FaultAfter /\ oarmed' = OarmedAfter
        /\ hist' = Append(hist, [act |-> "reattach", lba |-> 0, val |-> 0, out |-> p[1], data |-> 0])
     /\ UNCHANGED <<node, disk, mine, exported>>
 Env(a) ==
@@ -79,20 +93,25 @@ Env(a) ==
        \/ a = "unplug" /\ Tr = "sgio" /\ node = "present" /\ node' = "absent" /\ fresh' = FALSE /\ fault' = fault
        \/ a = "plug" /\ Tr = "sgio" /\ node = "absent" /\ node' = "present" /\ fresh' = FALSE /\ fault' = fault
     /\ hist' = Append(hist, [act |-> a, lba |-> 0, val |-> 0, out |-> "ok", data |-> 0])
-    /\ UNCHANGED <<disk, mine, exported>>
+    /\ UNCHANGED <<disk, mine, oarmed, exported>>
+ArmOpen ==
+    /\ Room /\ Tr = "sgio" /\ Detect /\ ~oarmed /\ oarmed' = TRUE
+    /\ hist' = Append(hist, [act |-> "armopen", lba |-> 0, val |-> 0, out |-> "ok", data |-> 0])
+    /\ UNCHANGED <<node, fresh, disk, mine, fault, exported>>
 Arm(st) ==
     /\ Room /\ fault = 0 /\ fault' = st
     /\ hist' = Append(hist, [act |-> "arm", lba |-> 0, val |-> st, out |-> "ok", data |-> 0])
-    /\ UNCHANGED <<node, fresh, disk, mine, exported>>
+    /\ UNCHANGED <<node, fresh, disk, mine, oarmed, exported>>
 Export == /\ Len(hist) = MaxLen /\ ~exported
           /\ PrintT(<<"BEHAVIOUR", ToJson([detect |-> Detect, tr |-> Tr, steps |-> hist])>>)
-          /\ exported' = TRUE /\ UNCHANGED <<node, fresh, disk, mine, fault, hist>>
+          /\ exported' = TRUE /\ UNCHANGED <<node, fresh, disk, mine, fault, oarmed, hist>>
 
-Next == \/ \E l \in LBAs, v \in Vals : Write(l, v)
+Next == \/ \E l \in LBAs, v \in Vals : Write(l, v) \/ Fill(l, v)
         \/ \E l \in LBAs : Read(l) \/ Reread(l) \/ Zero(l)
         \/ Reattach
         \/ \E a \in {"replug", "unplug", "plug"} : Env(a)
         \/ \E st \in FaultStatuses : Arm(st)
+        \/ ArmOpen
         \/ Export
 Spec == Init /\ [][Next]_vars
 
@@ -100,5 +119,5 @@ Spec == Init /\ [][Next]_vars
 \* a successful one arrived, whatever happened to the node in between
 SameMedium == mine = disk
 \* with detection on, a command that succeeded went through a handle of the node now at the path
-FreshAfterSuccess == (Detect /\ hist # <<>> /\ hist[Len(hist)].act \in {"read", "reread", "write", "zero", "reattach"} /\ hist[Len(hist)].out = "ok") => fresh
+FreshAfterSuccess == (Detect /\ hist # <<>> /\ hist[Len(hist)].act \in {"read", "reread", "write", "fill", "zero", "reattach"} /\ hist[Len(hist)].out = "ok") => fresh
 =============================================================================
